@@ -4,7 +4,7 @@ from __future__ import annotations
 
 import numpy as np
 
-from .. import gen, monitors
+from .. import derive, gen, monitors
 
 PID = "C12"
 ANCHORS = ["group_scores.py:GroupScores.__init__", "group_scores.py:GroupScores.swap", "group_scores.py:GroupScores.__getitem__",
@@ -120,7 +120,7 @@ def execute(ctx, case):
 
     def op_from_labels():
         fl = GroupScores.from_labels(np.concatenate([np.ones(len(pos), int), np.zeros(len(neg), int)]), np.concatenate([pos, neg]), np.concatenate([pg, ng]),
-                                     score_class=sc, equal_class=ec)
+                                     **derive.call_form(case.get("_seed", 0), dict(score_class=sc, equal_class=ec, pos_label=1)))  # documented defaults may be left out
         C(fl == gs and list(fl.groups) == sorted(set(pg) | set(ng)), "from_labels differs from the constructor", "gs-from-labels")
 
     def op_group_cm(tag="", ths=ths, sample=None):
@@ -171,6 +171,29 @@ def execute(ctx, case):
             ref = np.stack([getattr(Scores(pos[pg == g], neg[ng == g], score_class=sc, equal_class=ec), m)(ths) for g in gs.groups], axis=0)
             C(np.array_equal(gw, ref, equal_nan=True) and np.array_equal(gw, getattr(gs, "group_" + m)(ths), equal_nan=True),
               "groupwise(metric) differs from the metric applied to each group's rows", "gs-groupwise", metric=m)
+
+        # any metric, also a user callable: one that consumes random numbers (a bootstrap statistic) gives, from the same RNG state, exactly
+        # the group-by-group results - the metric is applied once per group, in group order - and one whose value type depends on the
+        # group (an int fallback for a group lacking a class) is stacked with the usual promotion
+        def m_rng(s_, scale=1.0):
+            return np.array([np.random.random() * scale, len(s_.pos), len(s_.neg)])
+
+        def m_fallback(s_):
+            return float(np.mean(s_.pos)) + 0.25 if len(s_.pos) else 0
+
+        st0 = np.random.get_state()
+        gw_r = groupwise(m_rng)(gs, scale=2.0)
+        st_after = np.random.get_state()
+        np.random.set_state(st0)
+        ref_r = np.stack([m_rng(gs[g], scale=2.0) for g in gs.groups], axis=0)
+        st_ref = np.random.get_state()
+        C(np.array_equal(gw_r, ref_r) and np.array_equal(st_after[1], st_ref[1]) and st_after[2] == st_ref[2],
+          "groupwise(metric) of a random-number-consuming metric differs from the group-by-group results from the same RNG state (or leaves the RNG elsewhere)", "gs-groupwise-rng",
+          got=gw_r, want=ref_r)
+        gw_f = groupwise(m_fallback)(gs)
+        ref_f = np.stack([m_fallback(gs[g]) for g in gs.groups], axis=0)
+        C(np.array_equal(np.asarray(gw_f, dtype=float), np.asarray(ref_f, dtype=float)), "groupwise(metric) differs from the stacked per-group values when the value type depends on the group", "gs-groupwise-types",
+          got=gw_f, want=ref_f)
 
     def op_getitem():
         g = str(rs.choice(list(gs.groups)))
